@@ -242,6 +242,102 @@ func VHListStep() {
 	}
 }
 
+// ---- lists at scale ----
+
+// c06cmpLong: full forward and backward comparison of two lists of any length.
+func c06cmpLong(a *List[int], b *list.List, what string) {
+	vAssert(a.Len() == b.Len(), what+": same Len")
+	bound := 2*b.Len() + 4
+	ea, eb := a.Front(), b.Front()
+	for i := 0; i < bound && (ea != nil || eb != nil); i++ {
+		vAssert(ea != nil && eb != nil, what+": same forward traversal length")
+		if ea == nil || eb == nil {
+			return
+		}
+		vAssert(ea.Value == c06lv(eb.Value), what+": same values in forward traversal")
+		ea, eb = ea.Next(), eb.Next()
+	}
+	vAssert(ea == nil && eb == nil, what+": forward traversal terminates")
+	ea, eb = a.Back(), b.Back()
+	for i := 0; i < bound && (ea != nil || eb != nil); i++ {
+		vAssert(ea != nil && eb != nil, what+": same backward traversal length")
+		if ea == nil || eb == nil {
+			return
+		}
+		vAssert(ea.Value == c06lv(eb.Value), what+": same values in backward traversal")
+		ea, eb = ea.Prev(), eb.Prev()
+	}
+	vAssert(ea == nil && eb == nil, what+": backward traversal terminates")
+}
+
+// VHListLong: lists of 63, 64, 65 and NL symbolic values (so that anything done in blocks or
+// above a size threshold is passed): PushBackList / PushFrontList of the list onto itself and of
+// another long list, then a sweep of removals, moves and insertions over the whole list, compared
+// with container/list in full after every stage.
+func VHListLong() {
+	n := []int{63, 64, 65, vParam("NL")}[vChoose("n", 4)]
+	a, b := New[int](), list.New()
+	var ha []*Element[int]
+	var hb []*list.Element
+	for i := 0; i < n; i++ {
+		v := vInt("v")
+		ha = append(ha, a.PushBack(v))
+		hb = append(hb, b.PushBack(v))
+	}
+	oa, ob := New[int](), list.New()
+	for i := 0; i < n+1; i++ {
+		v := vInt("w")
+		oa.PushFront(v)
+		ob.PushFront(v)
+	}
+	c06cmpLong(a, b, "long list: built")
+	switch vChoose("op", 4) {
+	case 0:
+		a.PushBackList(a)
+		b.PushBackList(b)
+	case 1:
+		a.PushFrontList(a)
+		b.PushFrontList(b)
+	case 2:
+		a.PushBackList(oa)
+		b.PushBackList(ob)
+	case 3:
+		a.PushFrontList(oa)
+		b.PushFrontList(ob)
+	}
+	c06cmpLong(a, b, "long list: after Push*List")
+	c06cmpLong(oa, ob, "long list: the argument of Push*List is unchanged")
+	for i := 0; i < n; i++ {
+		switch i % 5 {
+		case 0:
+			vAssert(a.Remove(ha[i]) == c06lv(b.Remove(hb[i])), "long list: Remove returns the value")
+		case 1:
+			a.MoveToFront(ha[i])
+			b.MoveToFront(hb[i])
+		case 2:
+			a.MoveToBack(ha[i])
+			b.MoveToBack(hb[i])
+		case 3:
+			j := (i * 7) % n
+			a.MoveBefore(ha[i], ha[j]) // (ha[j] may have been removed: then nothing happens)
+			b.MoveBefore(hb[i], hb[j])
+		case 4:
+			v := vInt("x")
+			a.InsertAfter(v, ha[i])
+			b.InsertAfter(v, hb[i])
+		}
+	}
+	c06cmpLong(a, b, "long list: after a sweep of removals, moves and insertions")
+	for i := range ha {
+		na, nb := ha[i].Next(), hb[i].Next()
+		vAssert((na == nil) == (nb == nil), "long list: same Next of every handle")
+		if na != nil && nb != nil {
+			vAssert(na.Value == c06lv(nb.Value), "long list: same Next of every handle")
+		}
+	}
+	vCover("list long done")
+}
+
 // ---- rings ----
 
 type c06r struct {
